@@ -1,6 +1,7 @@
 package main
 
 import (
+	"go/constant"
 	"fmt"
 	"os"
 	"go/ast"
@@ -67,6 +68,9 @@ type Frame struct {
 	srcMap  map[token.Pos]string
 	matched map[*Clause]bool
 	lastRes map[string]Val
+	// set on the frame of a helper that is absent from the baseline and is verified as part of its caller (shape.go)
+	host     *Frame
+	hostNext bool
 	callCallee   *ssa.Function
 	callBindings []Val
 	frameLo, frameHi string // position range of the element write being frame-checked
@@ -239,8 +243,94 @@ func (fr *Frame) record(name string, v Val, addr bool) {
 	fr.sites[name] = append(fr.sites[name], defSite{fr.block, fr.idx, v, addr})
 }
 
+// #iter: the number of completed iterations of the innermost loop around b, as seen at that loop's header for the
+// current iteration. For `for i := range s` (go/ssa keeps a hidden index starting at -1) it is index+1; for a
+// counting loop `for i := c; ...; i++` it is i-c. In both forms the element handled by the current iteration is
+// s[#iter], so a contract written over #iter does not depend on which of the two loop forms the code uses.
+func (fr *Frame) iterAt(b *ssa.BasicBlock, phiMap map[*ssa.Phi]Val) (Val, bool) {
+	// a block that leaves the loop (a return in the body, the code after the loop) is not part of the natural loop:
+	// it sees the loop of its nearest dominator that is
+	var best *loopInfo
+	for ; b != nil && best == nil; b = b.Idom() {
+		for _, li := range fr.loops {
+			if li.header != b && !li.body[b] {
+				continue
+			}
+			if best == nil || len(li.body) < len(best.body) {
+				best = li
+			}
+		}
+	}
+	if best == nil {
+		return Val{}, false
+	}
+	pv := func(p *ssa.Phi) (Val, bool) {
+		if v, ok := phiMap[p]; ok {
+			return v, true
+		}
+		v, ok := fr.vals[p]
+		return v, ok
+	}
+	var found []Val
+	for _, in := range best.header.Instrs {
+		p, ok := in.(*ssa.Phi)
+		if !ok {
+			break
+		}
+		if p.Comment == "rangeindex" {
+			if v, ok := pv(p); ok {
+				return Val{T: "(+ " + v.T + " 1)", Ty: p.Type()}, true
+			}
+			return Val{}, false
+		}
+		if len(p.Edges) != 2 {
+			continue
+		}
+		var init *ssa.Const
+		step := false
+		for k, ed := range p.Edges {
+			pred := best.header.Preds[k]
+			inside := best.body[pred] || pred == best.header
+			if !inside {
+				if c, ok := ed.(*ssa.Const); ok && c.Value != nil && c.Value.Kind() == constant.Int {
+					init = c
+				}
+				continue
+			}
+			if bo, ok := ed.(*ssa.BinOp); ok && bo.Op == token.ADD {
+				one := func(v ssa.Value) bool {
+					c, ok := v.(*ssa.Const)
+					return ok && c.Value != nil && c.Value.Kind() == constant.Int && c.Value.ExactString() == "1"
+				}
+				if bo.X == ssa.Value(p) && one(bo.Y) || bo.Y == ssa.Value(p) && one(bo.X) {
+					step = true
+				}
+			}
+		}
+		if init != nil && step {
+			if v, ok := pv(p); ok {
+				found = append(found, Val{T: "(- " + v.T + " " + smtInt(init.Value.ExactString()) + ")", Ty: p.Type()})
+			}
+		}
+	}
+	if len(found) == 1 {
+		return found[0], true
+	}
+	return Val{}, false
+}
+
+func smtInt(s string) string {
+	if strings.HasPrefix(s, "-") {
+		return "(- " + s[1:] + ")"
+	}
+	return s
+}
+
 func (fr *Frame) resolveAt(name string, b *ssa.BasicBlock, idx int, st *State, phiMap map[*ssa.Phi]Val) (Val, bool) {
 	e := fr.e
+	if name == "iter" {
+		return fr.iterAt(b, phiMap)
+	}
 	// a variable that lives in a cell (address taken, captured): its value is the cell's current content, not the
 	// result of some earlier load
 	for _, blk := range fr.fn.Blocks {
@@ -986,6 +1076,9 @@ func (fr *Frame) envLoop(li *loopInfo, st *State, pm map[*ssa.Phi]Val) *Env {
 	env := fr.envAt(b, 0, st, nil)
 	inner := env.lookup
 	env.lookup = func(name string) (Val, bool) {
+		if name == "iter" {
+			return fr.iterAt(b, pm)
+		}
 		for p, v := range pm {
 			if p.Comment == name {
 				return v, true
